@@ -9,9 +9,11 @@ import (
 )
 
 // loopRules classifies every loop of the functions in scope (DESIGN §3.8):
-//   bounded   range / counted loops
-//   wait      loops containing a blocking operation: must block with no lock held and have a context-governed exit
-//   state     loops whose condition reads state X: every continuing iteration must write X
+//
+//	bounded   range / counted loops
+//	wait      loops containing a blocking operation: must block with no lock held and have a context-governed exit
+//	state     loops whose condition reads state X: every continuing iteration must write X
+//
 // Anything else is undecided and fails.
 func loopRules(c *Ctx, p *Prog, lf *LockFacts, scope map[*ssa.Function]bool, pfx string) (nloops int) {
 	for _, f := range sortedFuncs(scope) {
